@@ -180,30 +180,26 @@ theorem bo_priv (pre : String) (b : BatchOpeningShape) : privOf (boAlloc pre b) 
 theorem step_pub (D : Nat) (pre : String) (s : StepShape) : pubOf (stepAlloc D pre s) = [] := by
   simp [stepAlloc, mmcs_pub]
 
-theorem step_priv (D : Nat) (pre : String) (s : StepShape) (h : s.wf = true) :
+/-- Since /repo fc0321f `new` and `get_private_values` both read `sibling_values.len()`: no
+    hypothesis on the sibling count. -/
+theorem step_priv (D : Nat) (pre : String) (s : StepShape) :
     privOf (stepAlloc D pre s) = stepPriv D pre s := by
-  have hs : s.siblings = 2 ^ s.logArity - 1 := by simpa [StepShape.wf] using h
-  simp [stepAlloc, stepPriv, mmcs_priv, sibCoeffs_eq, hs, idx]
+  simp [stepAlloc, stepPriv, mmcs_priv, sibCoeffs_eq, idx]
 
 theorem query_pub (D : Nat) (pre : String) (q : QueryShape) : pubOf (queryAlloc D pre q) = [] := by
   simp [queryAlloc, pubOf_flatMapIdx, bo_pub, step_pub]
 
-theorem query_priv (D : Nat) (pre : String) (q : QueryShape) (h : q.wf = true) :
+theorem query_priv (D : Nat) (pre : String) (q : QueryShape) :
     privOf (queryAlloc D pre q) = queryPriv D pre q := by
-  have hs : ∀ st ∈ q.steps, st.wf = true := by simpa [QueryShape.wf] using h
-  simp only [queryAlloc, queryPriv, privOf_append, privOf_flatMapIdx, bo_priv]
-  congr 1
-  exact flatMapIdx_congr _ _ (fun j st hst => step_priv D _ st (hs st hst))
+  simp only [queryAlloc, queryPriv, privOf_append, privOf_flatMapIdx, bo_priv, step_priv]
 
 theorem fri_pub (D E : Nat) (f : FriShape) : pubOf (friAlloc D E f) = friPub E f := by
   simp [friAlloc, friPub, pubOf_flatMapIdx, cap_pub, query_pub]
 
-theorem fri_priv (D E : Nat) (f : FriShape) (h : f.wf = true) :
+theorem fri_priv (D E : Nat) (f : FriShape) :
     privOf (friAlloc D E f) = friPriv D f := by
-  have hq : ∀ q ∈ f.queries, q.wf = true := by simpa [FriShape.wf] using h
   simp only [friAlloc, friPriv, privOf_append, privOf_flatMapIdx, cap_priv, privOf_allocPub,
-    flatMapIdx_nil_fun, List.nil_append, List.append_nil]
-  exact flatMapIdx_congr _ _ (fun j q hq' => query_priv D _ q (hq q hq'))
+    flatMapIdx_nil_fun, List.nil_append, List.append_nil, query_priv]
 
 theorem hid_pub (h : List (List (List Nat))) : pubOf (hidAlloc h) = [] := by
   simp [hidAlloc, pubOf_flatMapIdx]
@@ -213,10 +209,9 @@ theorem hid_priv (h : List (List (List Nat))) : privOf (hidAlloc h) = hidPriv h 
 theorem pcs_pub (D E : Nat) (p : PcsShape) : pubOf (pcsAlloc D E p) = pcsPub E p := by
   simp [pcsAlloc, pcsPub, pubOf_optL, hid_pub, fri_pub]
 
-theorem pcs_priv (D E : Nat) (p : PcsShape) (h : p.wf = true) :
+theorem pcs_priv (D E : Nat) (p : PcsShape) :
     privOf (pcsAlloc D E p) = pcsPriv D p := by
-  have hf : p.fri.wf = true := h
-  simp only [pcsAlloc, pcsPriv, privOf_append, privOf_optL, fri_priv D E p.fri hf]
+  simp only [pcsAlloc, pcsPriv, privOf_append, privOf_optL, fri_priv D E p.fri]
   congr 1
   cases p.hid <;> simp [optL, hid_priv]
 
